@@ -34,13 +34,26 @@
 (*   ReassemblyIgnoresOffset fragments are appended in arrival order       *)
 (*   ServerSkipsClientAuth   the server never requests / checks a client   *)
 (*                           certificate (expected fingerprint unused)     *)
+(*   PostHvrAdoptsAnySeq     after a HelloVerifyRequest the client adopts  *)
+(*                           the message_seq of whatever arrives first as  *)
+(*                           its new expectation (the ServerHello may be    *)
+(*                           skipped, a repeated HelloVerifyRequest restarts*)
+(*                           the exchange)                                  *)
+(*   RetransmitReusesRecordSeq a retransmitted flight is the byte-identical*)
+(*                           records, record sequence numbers included, so *)
+(*                           a peer with an anti-replay window discards     *)
+(*                           every retransmitted record it has seen before  *)
 (*   Epoch0AppData           plaintext ApplicationData is delivered        *)
 (*   Epoch0HandshakeAfterKeys a plaintext handshake message can advance or  *)
 (*                           fail the handshake after keys were negotiated *)
 (***************************************************************************)
 EXTENDS Naturals, Integers, Sequences, FiniteSets, TLC
 
-CONSTANTS Deviations,   \* see above
+CONSTANTS AntiReplay,   \* endpoints (subset of {"C","S"}) that discard a record whose (epoch, sequence number) they
+                        \* have already seen (RFC 6347 4.1.2.6): rustrtc has no such window, the reference has
+          ServerHvr,    \* TRUE: the server answers a cookie-less ClientHello with a HelloVerifyRequest
+                        \* (rustrtc's server never does; the reference implementation's server does)
+          Deviations,   \* see above
           Lax           \* TRUE: an endpoint MAY answer any duplicate by resending its last flight
                         \* (contract level, used for trace validation); FALSE: only where it must
 
@@ -69,7 +82,8 @@ Msg(t, ms) ==
   [t |-> t, ms |-> ms, frag |-> 0, nfrag |-> 1, lo |-> 0, hi |-> Units,
    rnd |-> "-", ck |-> FALSE, prof |-> "-", cert |-> "-", dh |-> "-",
    sigBy |-> "-", sigCr |-> "-", sigSr |-> "-", sigDh |-> "-", sigTr |-> <<>>, sigN |-> "-",
-   fin |-> NoFin, enc |-> NoMaster, bad |-> FALSE]
+   fin |-> NoFin, enc |-> NoMaster, bad |-> FALSE,
+   same |-> FALSE]     \* a retransmission that reuses the record sequence number of the first transmission
 
 \* What enters the handshake transcript (the bytes of the message, abstractly).
 Dig(m) == [t |-> m.t, ms |-> m.ms, rnd |-> m.rnd, ck |-> m.ck, prof |-> m.prof, cert |-> m.cert,
@@ -93,7 +107,7 @@ InitEp(e, cert, key, dh, rnd, expFp) ==
    tr |-> <<>>, cr |-> "-", sr |-> "-", prof |-> "-",
    cert |-> cert, key |-> key, dh |-> dh, rnd |-> rnd, expFp |-> expFp,
    peerCert |-> "-", skeOk |-> FALSE, cvOk |-> FALSE, crSeen |-> FALSE, peerDh |-> "-",
-   keys |-> NoMaster, last |-> <<>>, frag |-> NoFrag,
+   keys |-> NoMaster, last |-> <<>>, frag |-> NoFrag, seenRec |-> {},
    appGot |-> 0, appBad |-> 0, started |-> FALSE]
 
 \* Who runs an endpoint: "certC"/"certS" the genuine party; "certM" the adversary with its own certificate and
@@ -104,6 +118,13 @@ KeyOfId(id, e)  == IF id = "stolen" THEN "certM" ELSE id
 Flight(msgs, rtx, why) == [msgs |-> msgs, rtx |-> rtx, why |-> why]
 Res(s, out) == [s |-> s, out |-> out]
 Fail(s) == Res([s EXCEPT !.st = "Failed"], <<>>)
+
+\* The records of a flight when it is sent again: a retransmission is a new record with a fresh sequence
+\* number. (The protected Finished is resent as is: a peer that has not seen it accepts it, one that has does
+\* not need it.)
+Plain0(m) == m.enc = [pre |-> {}, cr |-> "-", sr |-> "-", sh |-> <<>>]
+Again(fl) == [i \in 1..Len(fl) |-> [fl[i] EXCEPT !.same = (Dev("RetransmitReusesRecordSeq") \/ ~Plain0(fl[i]))]]
+RecKey(m) == <<m.t, m.ms, m.lo, m.hi>>
 
 CanDecrypt(s, m) == s.keys # NoMaster /\ m.enc = s.keys
 Plaintext(m) == m.enc = NoMaster          \* an epoch-0 record: anybody on the path can read and forge it
@@ -123,7 +144,12 @@ StartOf(s) ==
 RecvCH(s, m) ==
   IF s.role # "S" THEN Res(s, <<>>)
   ELSE IF s.sr # "-"
-  THEN Res(s, IF s.last # <<>> THEN <<Flight(s.last, TRUE, "dupCH")>> ELSE <<>>)
+  THEN Res(s, IF s.last # <<>> THEN <<Flight(Again(s.last), TRUE, "dupCH")>> ELSE <<>>)
+  ELSE IF ServerHvr /\ ~m.ck
+  THEN \* cookie exchange: neither this ClientHello nor the HelloVerifyRequest enter the transcript
+       LET hvr == Msg("HVR", s.sendSeq)
+       IN Res([s EXCEPT !.tr = <<>>, !.sendSeq = s.sendSeq + 1, !.last = <<hvr>>],
+              <<Flight(<<hvr>>, FALSE, "first")>>)
   ELSE
     LET q    == s.sendSeq
         prof == "1"                                  \* prefers SRTP_AES128_CM_HMAC_SHA1_80 when offered
@@ -243,6 +269,10 @@ Accept(s, m) ==
                       !.tr = IF m.t \in {"FIN", "HVR"} THEN s.tr ELSE Append(s.tr, Dig(m))]
   IN Dispatch(s1, m)
 
+PostHvrWaits(s, m) == s.postHvr /\ s.role = "C" /\ m.t # "SH" /\ ~Dev("PostHvrAdoptsAnySeq")
+Resynced(s, m) == IF s.postHvr /\ s.role = "C" /\ m.ms # s.recvSeq
+                  THEN [s EXCEPT !.recvSeq = m.ms, !.postHvr = FALSE] ELSE s
+
 Whole(m, bad) == [m EXCEPT !.frag = 0, !.nfrag = 1, !.lo = 0, !.hi = Units, !.bad = bad]
 
 \* Fragment reassembly. Intended: by offset - complete when the pieces received for this message_seq cover
@@ -277,11 +307,10 @@ Reassemble(s, m) ==
      ELSE Res([s EXCEPT !.frag = f.buf], <<>>)
 
 \* What process_handshake_payload does with the message, as one of the dispositions it logs.
-Resynced(s, m) == IF s.postHvr /\ s.role = "C" /\ m.ms # s.recvSeq
-                  THEN [s EXCEPT !.recvSeq = m.ms, !.postHvr = FALSE] ELSE s
 DispOf(s, m) ==
   LET s0 == Resynced(s, m)
-  IN IF m.ms < s0.recvSeq THEN "dup"
+  IN IF PostHvrWaits(s, m) THEN "wait"
+     ELSE IF m.ms < s0.recvSeq THEN "dup"
      ELSE IF m.ms > s0.recvSeq THEN "ooo"
      ELSE IF FragStep(s0, m).complete THEN "acc" ELSE "frag"
 
@@ -293,27 +322,28 @@ MustAnswerDup(s, m) ==
   \/ s.role = "S" /\ m.t = "FIN" /\ s.st = "Connected" /\ ~Dev("NoFinalFlightResend")
 
 DupResults(s, m) ==
-  LET yes == Res(s, IF s.last # <<>> THEN <<Flight(s.last, TRUE, "dup")>> ELSE <<>>)
+  LET yes == Res(s, IF s.last # <<>> THEN <<Flight(Again(s.last), TRUE, "dup")>> ELSE <<>>)
       no  == Res(s, <<>>)
   IN IF MustAnswerDup(s, m) THEN {yes} ELSE IF Lax THEN {yes, no} ELSE {no}
 
 \* process_handshake_payload: message_seq filtering, post-HVR resynchronisation, reassembly.
+\* After a HelloVerifyRequest the client accepts the ServerHello at whatever message_seq the server restarts
+\* with (0 per RFC 6347 4.2.1, HVR + 1 in some implementations) and nothing else before it.
 HsResults(s, m) ==
-  IF m.ms < s.recvSeq
-  THEN IF s.postHvr /\ s.role = "C"
-       THEN {Reassemble([s EXCEPT !.recvSeq = m.ms, !.postHvr = FALSE], m)}
-       ELSE DupResults(s, m)
-  ELSE IF m.ms > s.recvSeq
-  THEN IF s.postHvr /\ s.role = "C"
-       THEN {Reassemble([s EXCEPT !.recvSeq = m.ms, !.postHvr = FALSE], m)}
-       ELSE {Res(s, <<>>)}                                               \* out of order: ignored
-  ELSE {Reassemble(s, m)}
+  IF PostHvrWaits(s, m) THEN {Res(s, <<>>)}
+  ELSE LET s0 == Resynced(s, m) IN
+       IF m.ms < s0.recvSeq THEN DupResults(s0, m)
+       ELSE IF m.ms > s0.recvSeq THEN {Res(s0, <<>>)}                    \* out of order: ignored
+       ELSE {Reassemble(s0, m)}
 
 \* One record arriving at an endpoint (handle_incoming_packet / handle_decrypted_record).
 \* The result is a set: the contract leaves some choices free.
-RecvResults(s, m) ==
-  IF s.st = "Failed" THEN {Res(s, <<>>)}                                 \* the task has exited
-  ELSE IF m.t = "CCS" THEN {Res(s, <<>>)}
+RecvResults(s0, m) ==
+  IF s0.st = "Failed" THEN {Res(s0, <<>>)}                               \* the task has exited
+  ELSE IF s0.role \in AntiReplay /\ m.same /\ RecKey(m) \in s0.seenRec THEN {Res(s0, <<>>)}   \* replayed record
+  ELSE LET valid == Plaintext(m) \/ CanDecrypt(s0, m)     \* the window moves only for records that authenticate
+           s == IF s0.role \in AntiReplay /\ valid THEN [s0 EXCEPT !.seenRec = @ \cup {RecKey(m)}] ELSE s0 IN
+  IF m.t = "CCS" THEN {Res(s, <<>>)}
   ELSE IF m.t \in {"FIN", "APP"} /\ ~Plaintext(m) /\ ~CanDecrypt(s, m)
   THEN {Res(IF m.t = "APP" /\ s.st = "Connected" THEN [s EXCEPT !.appBad = s.appBad + 1] ELSE s, <<>>)}
                                                                          \* undecryptable record: dropped
@@ -328,9 +358,10 @@ RecvResults(s, m) ==
   ELSE HsResults(s, m)
 
 \* handle_retransmit: while Handshaking the last flight is resent on every tick.
+\* (A HelloVerifyRequest is stateless: it is sent in answer to a ClientHello, never on a timer.)
 TickOf(s) ==
-  IF s.st = "Handshaking" /\ s.last # <<>>
-  THEN Res(s, <<Flight(s.last, TRUE, "timer")>>) ELSE Res(s, <<>>)
+  IF s.st = "Handshaking" /\ s.last # <<>> /\ s.last[1].t # "HVR"
+  THEN Res(s, <<Flight(Again(s.last), TRUE, "timer")>>) ELSE Res(s, <<>>)
 
 DeadlineOf(s) == IF s.st = "Handshaking" THEN Fail(s) ELSE Res(s, <<>>)
 
